@@ -719,6 +719,7 @@ def extra_C05(ctx):
 
 
 KINDS = ["raw", "nodata", "mbuff", "fixed"]
+VMAPI_FULL = {"Helpers": {"a", "b"}, "Calcs": {"k64", "byprog"}}
 
 
 def api_trace(ctx, kind, n, length, seed, tag, script=None):
@@ -737,7 +738,7 @@ def api_trace(ctx, kind, n, length, seed, tag, script=None):
         attempt += 1
         cur = os.path.join(ctx.workdir, f"{tag}.{kind}.try{attempt}.ndjson")
         open(cur, "w").write("\n".join(lines) + "\n")
-        r = run_tlc(f"{ctx.prop}-{tag}-{kind}-{attempt}", "TraceApi", {"Kind": kind}, spec="TraceSpec", invariants=["TraceInv"],
+        r = run_tlc(f"{ctx.prop}-{tag}-{kind}-{attempt}", "TraceApi", dict(VMAPI_FULL, Kind=kind), spec="TraceSpec", invariants=["TraceInv"],
                     postcondition="TraceAccepted", workers=1, timeout=900, env={"TRACE": cur}, expect_violation=True)
         ctx.states += r.distinct
         ctx.transitions += r.generated
@@ -770,8 +771,9 @@ def run_C10(ctx):
     from concurrent.futures import ThreadPoolExecutor
     # design level: the complete state graph of the abstract VM, per kind
     for kind in KINDS:
-        r = run_tlc(f"{ctx.prop}-graph-{kind}", "MC_VmApi", {"Kind": kind}, invariants=["Inv"], properties=["FailedCallIsNoOp"],
-                    workers=10, timeout=900)
+        # (VIEW view hides the observation variable; InvStep states the invariants on every transition)
+        r = run_tlc(f"{ctx.prop}-graph-{kind}", "MC_VmApi", dict(VMAPI_FULL, Kind=kind), invariants=["Inv"], properties=["FailedCallIsNoOp", "InvStep"],
+                    view="view", workers=10, timeout=900)
         if r.violation:
             ctx.violation(f"VmApi design invariant violated (kind {kind})", {"kind": "tlc", "output": r.violation[:3000]})
         ctx.add_tlc(f"MC_VmApi Kind={kind} (complete graph)", r)
@@ -781,7 +783,10 @@ def run_C10(ctx):
     ctx.extra["transition_cover"] = {}
 
     def cover(kind):
-        r = run_tlc(f"{ctx.prop}-edges-{kind}", "MC_VmApiTour", {"Kind": kind}, invariants=["Inv"], view="view",
+        # quick tier: the cover is planned over the graph with one helper function and one calculator
+        # (the second of each is exercised by the random histories); thorough tier: the full graph
+        sets = {"Helpers": {"a"}, "Calcs": {"k64"}} if ctx.quick else VMAPI_FULL
+        r = run_tlc(f"{ctx.prop}-edges-{kind}", "MC_VmApiTour", dict(sets, Kind=kind), invariants=["Inv"], view="view",
                     extra_cfg="ACTION_CONSTRAINT Edges", workers=2, timeout=900)
         edges = tour.parse_edges(r.out)
         hist, total, covered = tour.plan(edges, kind)
@@ -804,7 +809,7 @@ def run_C10(ctx):
     lines[k] = lines[k].replace('"res":"1"', '"res":"2"')
     bad = os.path.join(ctx.workdir, "negctl.nodata.ndjson")
     open(bad, "w").write("\n".join(lines) + "\n")
-    r = run_tlc(f"{ctx.prop}-negctl", "TraceApi", {"Kind": "nodata"}, spec="TraceSpec", invariants=["TraceInv"],
+    r = run_tlc(f"{ctx.prop}-negctl", "TraceApi", dict(VMAPI_FULL, Kind="nodata"), spec="TraceSpec", invariants=["TraceInv"],
                 postcondition="TraceAccepted", workers=1, timeout=300, env={"TRACE": bad}, expect_violation=True)
     m = re.search(r'<<"TRACE-REJECTED", (\d+), (\d+)>>', r.out)
     if not m or int(m.group(1)) != k + 1:
